@@ -63,7 +63,7 @@ Fixpoint in_fragment (e : expr) : bool :=
   | And a b | Or a b | BinApp _ a b => in_fragment a && in_fragment b
   | UnApp _ a | GetAttr a _ | HasAttr a _ | Like a _ | Is a _ => in_fragment a
   | ExtCall _ args | SetE args => forallb in_fragment args
-  | RecordE _ => false
+  | RecordE items => forallb (fun kv => in_fragment (snd kv)) items
   end.
 
 Section Special.
